@@ -94,6 +94,8 @@ def eval_call(I: Interp, node: ast.Call, fr: Frame):
             return SV(smt.mk_int(smt.STR.id("ev:" + I.ev(node.args[0], fr).c)), T.ANY)
         if n == "unchanged":  # no object that existed at entry has been written
             old_ep = st.old_stack[-1].get("__epoch__", st.epoch_entry) if st.old_stack else st.epoch_entry
+            if st.old_stack and st.old_stack[-1].get("__unchanged__") is not None:
+                return I.as_bool_sv(z3.And(st.old_stack[-1]["__unchanged__"], st.epoch == old_ep))
             return I.as_bool_sv(st.epoch == old_ep)
         if n == "member":  # member(space, x): x is an element of the gymnasium space (library model, see lib.py)
             from .interp import PSpace
@@ -371,6 +373,12 @@ def apply_callable(I: Interp, callee, args, kwargs, fr, node=None):
             st.assume(st.subclass_pred(cid, ci))
             st.heap["cls"] = z3.Store(st.arr("cls"), r, cid)
             return SV(smt.mk_ref(r), callee.ty.a[0])
+        if callee.ty.k == "type" and callee.ty.a and callee.ty.a[0].k == "enum":
+            # Type[E] for an enumeration E with members: E cannot be subclassed, so the class object is E itself -- unless E is the abstract
+            # head of a family of look-alike enumerations (it declares an abstract method), whose class objects are other classes
+            eci = callee.ty.a[0].a[0]
+            if not any("abstractmethod" in d for m_ in eci.methods.values() for d in m_.decorators):
+                return construct(I, eci, args, kwargs, fr, node)
         raise Refuse(f"call of symbolic value of type {callee.ty} at line {getattr(node, 'lineno', '?')}")
     raise Refuse(f"call of {type(callee).__name__}")
 
@@ -580,6 +588,12 @@ def find_contract(finfo: FuncInfo, selfv) -> Optional[Contract]:
     c = REG.contracts.get(finfo.key)
     if c is not None:
         return c
+    # a whole-function view stated for one receiver class (key "...#view", self_class=C) serves calls whose receiver is statically a C
+    if isinstance(selfv, SV) and T.strip_opt(selfv.ty).k == "obj":
+        rc = T.strip_opt(selfv.ty).a[0]
+        for k2, c2 in REG.contracts.items():
+            if k2.startswith(finfo.key + "#") and c2.self_class and c2.region is None and any(b.name == c2.self_class for b in rc.mro()):
+                return c2
     return None
 
 
@@ -598,7 +612,7 @@ def call_function(I: Interp, finfo: FuncInfo, selfv, args, kwargs, fr: Frame, no
     if top is not None and top.abstract_callees and key != top.key.split("#")[0] and not finfo.is_property and not st.spec_depth:
         if st.guards or st.binder_asms:
             raise Refuse("abstracted callee inside a merged expression")
-        st.log.append(f"callee {finfo.qualname} abstracted (any effect, any result) in the termination view of {top.key.split('::')[1]}")
+        st.log.append(f"callee {finfo.qualname} abstracted (any effect, any result) in the abstracted view of {top.key.split('::')[1]}")
         havoc(I, ["heap"], fr)
         a2 = st.fresh("alloc", smt.I)
         st.assume(a2 >= st.alloc)
@@ -806,7 +820,17 @@ def apply_contract(I: Interp, con: Contract, finfo: FuncInfo, selfv, args, kwarg
             st.log.append(f"contract {finfo.key} (raising {names[k - 1]})")
             raise RaiseEx(names[k - 1], node)
     ev_before = st.events_len
+    ep_before = st.epoch
     havoc(I, con.modifies, sf)
+    if any("unchanged()" in e for _l, e in con.ensures):
+        # the callee's `unchanged()` (no object existing at its entry written) means more here than the ghost epoch can say: every heap
+        # array is what it was before the call.  A fresh flag u stands for it: the arrays after the call are ite(u, before, havoced).
+        u = st.fresh("callee_unchanged", z3.BoolSort())
+        for k_ in list(st.heap.keys()):
+            if k_ in old and not k_.startswith("__") and not k_.startswith("g:") and st.heap[k_] is not old[k_] and st.heap[k_].sort() == old[k_].sort():
+                st.heap[k_] = z3.If(u, old[k_], st.heap[k_])
+        st.assume(z3.Implies(u, st.epoch == ep_before))
+        old["__unchanged__"] = u
     if con.exact_events:
         st.events_len = ev_before
     if con.allocates:
